@@ -325,9 +325,13 @@ func (u *Union) optMerge(mode Mode, req Require) (Cost, Cost, *unionApproach) {
 			fc1, vc1 := Optimize(u.source1, mode, mr)
 			fc2, vc2 := Optimize(u.source2, mode, mr)
 			if fc1+vc1 < impossible && fc2+vc2 < impossible {
-				return fc1 + fc2, vc1 + vc2,
-					&unionApproach{strat: unionMerge, req1: mr, req2: mr,
-						singles: true}
+				ap := &unionApproach{strat: unionMerge, req1: mr, req2: mr,
+					singles: true}
+				if u.disjoint != "" {
+					// a disjoint merge only compares ap.cols (not allCols)
+					ap.cols = req.cols
+				}
+				return fc1 + fc2, vc1 + vc2, ap
 			}
 		}
 	}
